@@ -1,6 +1,6 @@
 """C01 each operation returns the region it names (partly decided: the finite tables every output edge is selected
 through, and the plumbing from the public entry points to them)."""
-from rules import booltables as bt, oprules
+from rules import booltables as bt, oprules, cerules
 
 LEVEL = 'other'
 EXPLANATION = __doc__
@@ -13,3 +13,7 @@ def run(ctx, rep):
     oprules.check_trivial(ctx, rep)
     oprules.check_forward(ctx, rep)
     oprules.check_pipeline(ctx, rep)
+    # the statement reads results polygon by polygon (exterior minus holes): hole assignment is part of the region
+    bt.check_prev(ctx, rep)
+    cerules.check_parent(ctx, rep)
+    oprules.check_assemble(ctx, rep)
